@@ -101,10 +101,26 @@ def sample_edges(uname, k, rnd, pred=None, frac=0.5):
     return [json.loads(lines[i])["h"] for i in sorted(chosen)], total
 
 
-def with_variants(hist, rnd, p_reopen=0.15, p_rebuild=0.08):
+def with_variants(hist, rnd, p_reopen=0.15, p_rebuild=0.08, n_events=0, p_cont=0.25):
     """the edge cover is generated without the `mode` component; the driver adds the
-    'first call after reopen / rebuild' variants by inserting the call before the last one"""
+    'first call after reopen / rebuild' variants by inserting the call before the last one.
+    A quarter of the histories also get a short seeded continuation (and the last call once more): shortest paths never
+    contain failing or redundant calls, so state hidden behind the abstract state (caches, bytes left in the map by
+    refused stores, removed events at the tail of the map) is only reached by going on after the edge."""
     out = [hist]
+    if n_events and hist and rnd.random() < p_cont:
+        cont = []
+        for _ in range(rnd.randint(2, 4)):
+            r = rnd.random()
+            if r < 0.6:
+                cont.append({"k": "store", "a": rnd.randint(1, n_events)})
+            elif r < 0.8:
+                cont.append({"k": "remove", "a": rnd.randint(1, n_events)})
+            elif r < 0.9:
+                cont.append({"k": "reopen", "a": 0})
+            else:
+                cont.append({"k": "rebuild", "a": 0})
+        out.append(hist + cont + [hist[-1]])
     r = rnd.random()
     if len(hist) >= 1 and r < p_reopen:
         out.append(hist[:-1] + [{"k": "reopen", "a": 0}] + hist[-1:])
